@@ -476,6 +476,16 @@ pub fn check(a: &CheckArgs, meta: &CheckMeta) -> i32 {
 
     let g = std::mem::take(&mut *agg.lock().unwrap());
     let wall = t0.elapsed().as_secs_f64();
+    if std::env::var("VERIF_SIGS").is_ok() {
+        let mut c: BTreeMap<(String, String), (u64, u64)> = BTreeMap::new();
+        for (seed, v) in &g.violations {
+            let e = c.entry((v.oracle.clone(), v.sig.clone())).or_insert((0, *seed));
+            e.0 += 1;
+        }
+        for ((o, s), (n, seed)) in c {
+            eprintln!("sig {o} {s}: {n} (e.g. seed {seed})");
+        }
+    }
 
     // triage violations: known findings vs new
     let mut exit = 0;
@@ -712,6 +722,23 @@ pub fn main(args: &[String]) -> i32 {
                     shown += 1;
                     if shown > 80 { break; }
                     println!("tx ep{} {:?} pn{} t{}us {}", t.ep, t.space, t.pn, t.t_ns/1000, interesting.join(" ").chars().take(400).collect::<String>());
+                }
+                if std::env::var("VERIF_DEBUG").map_or(false, |v| v == "2") {
+                    let mut all: Vec<(u64, String)> = vec![];
+                    for (i, t) in out.obs.tx.iter().enumerate() {
+                        let fr = view.tx_frames[i].as_ref().map(|f| f.iter().map(|x| match x { crate::wire::Frame::Ack { ranges, .. } => format!("ACK{ranges:?}"), crate::wire::Frame::Stream { id, off, len, fin, .. } => format!("STREAM({id},{off},{len},{fin})"), o => o.type_name().to_string() }).collect::<Vec<_>>().join(",")).unwrap_or_default();
+                        all.push((t.seq, format!("TX  ep{} c{} {:?} pn{} t{}us len{} [{}]", t.ep, t.conn, t.space, t.pn, t.t_ns/1000, t.payload.len(), fr.chars().take(160).collect::<String>())));
+                    }
+                    for (i, t) in out.obs.rx.iter().enumerate() {
+                        let fr = view.rx_frames[i].as_ref().map(|f| f.iter().map(|x| match x { crate::wire::Frame::Ack { ranges, .. } => format!("ACK{ranges:?}"), crate::wire::Frame::Stream { id, off, len, fin, .. } => format!("STREAM({id},{off},{len},{fin})"), o => o.type_name().to_string() }).collect::<Vec<_>>().join(",")).unwrap_or_default();
+                        all.push((t.seq, format!("RX  ep{} c{} {:?} pn{} t{}us len{} [{}]", t.ep, t.conn, t.space, t.pn, t.t_ns/1000, t.payload.len(), fr.chars().take(160).collect::<String>())));
+                    }
+                    for d in &out.obs.tx_dgrams { all.push((d.seq, format!("DG  ep{} c{} t{}us len{} first{:#x}", d.ep, d.conn, d.t_ns/1000, d.bytes.len(), d.bytes[0]))); }
+                    for e in &out.obs.evs { all.push((e.seq, format!("EV  ep{} c{} t{}us {:?}", e.ep, e.conn, e.t_ns/1000, e.ev))); }
+                    all.sort();
+                    let skip = if std::env::var("VERIF_DEBUG_ALL").is_ok() { 0 } else { all.len().saturating_sub(120) };
+                    for (s, l) in all.iter().skip(skip) { println!("{s} {l}"); }
+                    for r in out.net.log.iter().rev().take(12).rev() { println!("NET {:?} #{} t{}us len{} first{:#x} deliveries {:?} drop {:?}", r.dir, r.ordinal, r.t_send_ns/1000, r.len, r.first_byte, r.deliveries.iter().map(|d| (d.t_us, d.len)).collect::<Vec<_>>(), r.drop_reason); }
                 }
                 for (seq, ep, t, e) in out.obs.ep_evs.iter().take(20) {
                     println!("epev {seq} {ep} {t} {e:?}");
